@@ -438,3 +438,65 @@ def _stop_type(data):
     except Exception:
         pass
     return last[0]
+
+
+# ------------------------------------------------------------------------ non-triviality (rule of C01)
+def _leaf_info(spec, out):
+    row = T.ROWS[spec["cls"]]
+    fields = spec.get("fields", {})
+    for f in row.fields:
+        if f.name in fields:
+            _leaf_val(f.kind, fields[f.name], out)
+
+
+def _leaf_val(kind, val, out):
+    if isinstance(val, dict) and "cls" in val:
+        _leaf_info(val, out)
+        return
+    if isinstance(val, list):
+        item = kind.item if isinstance(kind, T.Lst) else kind
+        if len(val) == 0:
+            out.append((True, None))
+        for x in val:
+            _leaf_val(item, x, out)
+        return
+    if isinstance(kind, T.Var):
+        return
+    if isinstance(kind, (T.Text, T.AttrName)):
+        n = len(val.encode("utf-8", "surrogatepass"))
+        out.append((n in T.LEN_EDGES or n >= 256 or any(ord(c) > 127 for c in val), n % 8))
+    elif isinstance(kind, (T.Bytes, T.Stream)):
+        n = len(val) // 2
+        out.append((n in T.LEN_EDGES or n >= 256, n % 8))
+    elif isinstance(kind, T.Int):
+        out.append((val in T.INT_EDGES, None))
+    elif isinstance(kind, (T.Long, T.Date)):
+        out.append((val in T.LONG_EDGES, None))
+    elif isinstance(kind, T.Ivl):
+        out.append((val in T.IVL_EDGES or val == 2 ** 32, None))
+    elif isinstance(kind, T.Big):
+        out.append((val in T.BIG_EDGES, None))
+    elif isinstance(kind, T.Bool):
+        out.append((val is False, None))
+    elif isinstance(kind, T.Mask):
+        out.append((val == 0, None))
+    else:
+        out.append((False, None))
+
+
+def nontrivial_key(spec):
+    """-> (key, satisfies the rule): at least one optional field present or a boundary value;
+    distinct by (class, version, top-level presence bitmap, text/bytes length residues)."""
+    row = T.ROWS[spec["cls"]]
+    fields = spec.get("fields", {})
+    v = tuple(spec["v"])
+    opt = [f for f in row.fields if not f.meta and f.req is not True and f.exists(v)]
+    bitmap = tuple(1 if f.name in fields else 0 for f in opt)
+    leaves = []
+    try:
+        _leaf_info(spec, leaves)
+    except Exception:
+        return (spec["cls"], v, bitmap, ()), any(bitmap)
+    residues = tuple(sorted(set(r for _b, r in leaves if r is not None)))
+    boundary = any(bd for bd, _r in leaves)
+    return (spec["cls"], v, bitmap, residues), (any(bitmap) or boundary)
